@@ -165,6 +165,18 @@ def anon_var_contract(chk):
            detail=str(bad) if bad else "run-time contract on the real method over 25 (base, name) pairs; unbounded proof: hv.pyvc K1 (C12 thorough)")
 
 
+def _replay_let_names():
+    """Through the whole pipeline: a let that binds v twice with a closure in between; the closure must keep seeing the first binding."""
+    import types
+    import hy
+    src = "(let [v 1  f (fn [] v)  v 2] [(f) v])"
+    try:
+        got = hy.eval(hy.read(src), module=types.ModuleType("hv_c12r"))
+    except Exception as e:  # noqa: BLE001
+        return {"confirmed": False, "error": f"{type(e).__name__}: {e}"[:200]}
+    return {"confirmed": got != [1, 2], "input": src, "observed": repr(got), "expected": "[1, 2]"}
+
+
 def let_names_contract(chk):
     """ScopeLet.add: every binding gets a name of its own from get_anon_var - also a second binding of the same user name
     in the same let, and bindings of equal names in nested lets; distinct temporaries never share a name."""
@@ -180,7 +192,7 @@ def let_names_contract(chk):
                 issued += [str(inner.add(sx.S("v"))), str(inner.add(sx.S("v")))]
     ok = len(set(issued)) == len(issued) and all(n.startswith("_hy_let_") for n in issued)
     chk.ob("contract/ScopeLet.add issues a fresh reserved name for every binding, also when a let binds the same name twice",
-           ok, "structural", "proved", detail=str(issued))
+           ok, "structural", "proved", detail=str(issued), replay=None if ok else _replay_let_names())
 
 
 def run(chk):
